@@ -37,6 +37,7 @@ type Val struct {
 	OriginBase string // the object the field was loaded from
 	Elems []Val // known elements when this ref is a freshly built literal slice/array
 	Boxed *Val  // value boxed by MakeInterface (static knowledge)
+	Ident string // []byte values: identity of the backing array (ownership tracking, static)
 }
 
 func (v Val) t() string {
